@@ -39,6 +39,11 @@ class O:
     pass
 
 
+class FN:
+    def f(self, *a, **k):
+        return sum(a) + sum(k.values())
+
+
 def all_subclasses(c):
     out = []
     for s in c.__subclasses__():
@@ -61,9 +66,6 @@ def run_shard(spec):
     g_data = {"ga": 4.5}
     g = m.refattr(g_data, "g")
 
-    class FN:
-        def f(self, *a, **k):
-            return sum(a) + sum(k.values())
     F = FN()
     f = m.ref(F, "f")
 
@@ -133,6 +135,8 @@ def run_shard(spec):
         ("args", lambda x: R.CallRef(f.f, (1, x), {}), {ff}),
         ("kwargs", lambda x: R.CallRef(f.f, (), {"y": x}), {ff}),
         ("args+kwargs", lambda x: R.CallRef(f.f, (x, r["b"]), {"y": x, "z": r["a"]}), {ff, rb, ra}),
+        ("kwargs-as-pairs", lambda x: R.CallRef(f.f, (), (("y", x),)), {ff}),
+        ("args+kwargs-as-pairs", lambda x: R.CallRef(f.f, (r["b"],), (("y", x), ("z", r["a"]))), {ff, rb, ra}),
     ]
     recipes[R.ItemRef] = [("owner", lambda x: R.ItemRef(x, 0, m), "self"), ("key", lambda x: R.ItemRef(r["l"], x, m), "self+rl")]
     recipes[R.AttrRef] = [("owner", lambda x: R.AttrRef(x, "p", m), "self")]
@@ -178,6 +182,27 @@ def run_shard(spec):
             return
         if got:
             digests.add(digest(desc))
+        # a copy of the expression (deepcopy / pickle round trip: nodes are rebuilt through __reduce__, e.g. a
+        # call from its (name, value) pairs) reports the same locations
+        if expected is not None and (desc[2].startswith("direct") or desc[0].startswith("CallRef") or desc[0].startswith("BuiltinRef")):
+            import copy
+            import pickle
+            for how, cp in (("deepcopy", copy.deepcopy), ("pickle", lambda z: pickle.loads(pickle.dumps(z)))):
+                try:
+                    e2 = cp(e)
+                except Exception:
+                    counters["copies_not_possible_" + how] = counters.get("copies_not_possible_" + how, 0) + 1
+                    continue
+                counters["copied_expressions_checked"] = counters.get("copied_expressions_checked", 0) + 1
+                try:
+                    got2 = e2._get_dependencies()
+                except Exception as exc:
+                    violations.append({"what": "C05 %s: _get_dependencies() of a %s copy raised %s" % (desc, how, type(exc).__name__), "case": desc})
+                    return
+                if not isinstance(got2, set) or sorted(map(str, got2)) != sorted(map(str, expected)):
+                    violations.append({"what": "C05 %s: a %s copy of %s reports %s, expected %s" % (
+                        desc, how, e, sorted(map(str, got2)) if isinstance(got2, set) else type(got2).__name__, sorted(map(str, expected))), "case": desc})
+                    return
         # perturbation experiment
         v0 = val(e)
         if v0[0] == "ok" and isinstance(e._get_value(), (dict, list, O)):
